@@ -49,6 +49,9 @@ type state struct {
 
 var st = &state{pos: map[string]int{}, waiting: map[string][]chan struct{}{}}
 
+// Tick is called on every harness API event (native replay only: progress indicator for the coordinator).
+var Tick = func() {}
+
 // Load reads the replay file; called by the native replay test before the harness runs.
 func Load() *Replay {
 	p := os.Getenv("ZZ_REPLAY")
@@ -71,6 +74,7 @@ func Load() *Replay {
 func Begin(now time.Time) { st.bubble0 = now }
 
 func draw(label string) uint64 {
+	Tick()
 	st.mu.Lock()
 	defer st.mu.Unlock()
 	if st.r == nil {
@@ -133,6 +137,7 @@ func Assert(c bool, msg string) {
 
 // Reach marks a situation the harness is meant to cover (vacuity witness).
 func Reach(label string) {
+	Tick()
 	st.mu.Lock()
 	st.Trace = append(st.Trace, "reach:"+label)
 	st.mu.Unlock()
@@ -196,7 +201,9 @@ func Gate(label string) {
 	ch := make(chan struct{})
 	st.waiting[label] = append(st.waiting[label], ch)
 	st.mu.Unlock()
+	Tick()
 	<-ch
+	Tick()
 }
 
 // ReleaseNext is used by the replay coordinator: releases the goroutine parked at the next gate
